@@ -543,6 +543,14 @@ def monitor_c15(sc, obs):
                 _bad(v, 'C15/supplied-count', 'op %d: source %d reports %d produced parts, %d supplied_new_part records' % (i, d, e['produced'], counts[(10, d)]))
             if e['kind'] == 6 and not has_batches and counts[(6, d)] != e['received']:
                 _bad(v, 'C15/received-count', 'op %d: sink %d reports %d received parts, %d received_part records' % (i, d, e['received'], counts[(6, d)]))
+        # exactly one enter-queue record per accepted work order; started = records 3, finished = records 4, never more than accepted
+        for m, e in o.get('maints', {}).items():
+            if counts[(2, m)] != e['accepted']:
+                _bad(v, 'C15/work-order-record', 'op %d (t=%d): maintainer %d accepted %d work orders, there are %d enter_queue records' % (
+                    i, o['now'], m, e['accepted'], counts[(2, m)]))
+            if not (counts[(4, m)] <= counts[(3, m)] <= counts[(2, m)]):
+                _bad(v, 'C15/work-order-record', 'op %d (t=%d): maintainer %d has %d enter_queue, %d start and %d finish records' % (
+                    i, o['now'], m, counts[(2, m)], counts[(3, m)], counts[(4, m)]))
         for n, u, c in o['pools']:
             if n in last_pool and last_pool[n] != (u, c):
                 _bad(v, 'C15/resource-record', 'op %d %s: last recorded (usage, capacity) of r%d is %s, the pool has (%d, %d)' % (i, o['op'], n, last_pool[n], u, c))
